@@ -376,6 +376,9 @@ fn run_c08(eng: &Engine, a: &Args) {
     let tier = a.tier;
     eng.explore("random-histories", scaled(n, a), move || random_strategy(tier, true), check_c08);
     eng.enumerate("large-utxo-set", large_cases(), check_c08);
+    // the small histories that contain a verbatim duplicate transaction (all of them in the thorough tier)
+    let dups: Vec<Case> = small_histories(2, 2, false).into_iter().filter(|c| c.chain.blocks.iter().any(|b| b.txs.iter().any(|t| t.dup_of.is_some()))).collect();
+    eng.enumerate("small-histories-with-duplicates", dups, check_c08);
     if a.tier == Tier::Thorough {
         eng.enumerate("small-histories", small_histories(2, 2, true), check_c08);
     }
@@ -390,7 +393,7 @@ fn replay_c07(part: &str, case: serde_json::Value) -> Option<Verdict> {
 
 fn replay_c08(part: &str, case: serde_json::Value) -> Option<Verdict> {
     match part {
-        "small-histories" | "random-histories" | "large-utxo-set" => Some(check_c08(&serde_json::from_value(case).ok()?)),
+        "small-histories" | "random-histories" | "large-utxo-set" | "small-histories-with-duplicates" => Some(check_c08(&serde_json::from_value(case).ok()?)),
         _ => None,
     }
 }
